@@ -255,8 +255,20 @@ func (g *gen) genBlock() Op {
 	if max := g.c.Cfg.AnchorSlot + 26; op.S > max {
 		op.S = max
 	}
+	dup := -1
 	if g.chance(5, "blk_dup") {
-		op.R = g.pickID("blk_root")
+		dup = g.pickID("blk_root")
+		// precondition: a root that was pruned is never inserted again (a root commits to its parent,
+		// so a pruned block cannot reappear under a retained one)
+		if _, known := g.m.FirstSlot(g.root(dup)); !known && dup < g.nextID {
+			dup = -1
+		}
+	}
+	if dup >= 0 {
+		op.R = dup
+		if dup < 50 && dup >= g.nextID {
+			g.nextID = dup + 1
+		}
 	} else {
 		op.R = g.nextID
 		g.nextID++
